@@ -302,3 +302,5 @@ func mustAtoi(s string, def int) int {
 	}
 	return n
 }
+
+func exitNow(code int) { os.Exit(code) }
